@@ -127,7 +127,7 @@ def _large_tied_strategy():
     @st.composite
     def _s(draw):
         k = draw(st.integers(2, 3))
-        sizes = [draw(st.sampled_from([20000, 24000, 30000]))] + [draw(st.sampled_from([300, 2000, 21000, 50])) for _ in range(k - 1)]
+        sizes = [draw(st.sampled_from([20000, 24000, 30000, 32768, 20011]))] + [draw(st.sampled_from([300, 2000, 21000, 50, 1024])) for _ in range(k - 1)]
         if draw(st.integers(0, 3)) == 0:  # many groups instead of one huge group
             k = draw(st.integers(10, 30))
             sizes = [draw(st.sampled_from([40, 100, 300])) for _ in range(k)]
